@@ -847,7 +847,9 @@ func (t *Typechecker) VisitReturnStmt(stmt *ast.ReturnStmt) ast.VisitResult {
 		return ast.VisitRecurse
 	}
 
-	if !ddptypes.Equal(stmt.Func.ReturnType, returnType) &&
+	// an expression without a type cannot be returned, not even from a function that returns nothing
+	returnsVoidValue := stmt.Value != nil && ddptypes.IsVoid(returnType)
+	if returnsVoidValue || !ddptypes.Equal(stmt.Func.ReturnType, returnType) &&
 		(!ddptypes.Equal(stmt.Func.ReturnType, ddptypes.VARIABLE) || ddptypes.Equal(returnType, ddptypes.VoidType{})) {
 		errRange := stmt.Range
 		if stmt.Value != nil {
